@@ -598,6 +598,24 @@ impl Sys {
     }
 }
 
+/// engine shaft power / battery power of the step just solved are inside their own published limits
+fn component_limits_respected(l: &Locomotive) -> bool {
+    match &l.loco_type {
+        PowertrainType::ConventionalLoco(c) => {
+            c.fc.state.pwr_brake.value <= c.fc.state.pwr_out_max.value * (1.0 + TOL) + TOL
+                && c.fc.state.pwr_brake.value <= c.fc.pwr_out_max.value * (1.0 + TOL) + TOL
+                && c.gen.state.pwr_elec_prop_out.value + c.gen.state.pwr_elec_aux.value <= c.gen.pwr_out_max.value * (1.0 + TOL) + TOL
+                && c.edrv.state.pwr_out_req.value.abs() <= c.edrv.pwr_out_max.value * (1.0 + TOL) + TOL
+        }
+        PowertrainType::BatteryElectricLoco(b) => {
+            b.res.state.pwr_out_electrical.value <= b.res.state.pwr_disch_max.value * (1.0 + TOL) + TOL
+                && -b.res.state.pwr_out_electrical.value <= b.res.state.pwr_charge_max.value * (1.0 + TOL) + TOL
+                && b.edrv.state.pwr_out_req.value.abs() <= b.edrv.pwr_out_max.value * (1.0 + TOL) + TOL
+        }
+        _ => true,
+    }
+}
+
 fn edrv_of(l: &Locomotive) -> &ElectricDrivetrain {
     match &l.loco_type {
         PowertrainType::ConventionalLoco(c) => &c.edrv,
@@ -761,7 +779,13 @@ fn check_unit_tick(
                 s
             });
         c09(ctx, "loco.pwr_out<=published_max", st.pwr_out.value <= st.pwr_out_max.value * (1.0 + 2.0 * TOL) + 1e-3 + 2.0 * TOL * st.pwr_aux.value,
-            format!("pwr_out {:e} vs published pwr_out_max {:e}", st.pwr_out.value, st.pwr_out_max.value), Sig::new());
+            format!("pwr_out {:e} vs published pwr_out_max {:e}", st.pwr_out.value, st.pwr_out_max.value),
+            {
+                let mut s = sig1("standalone", !in_consist);
+                s.insert("component_limits_respected".into(), component_limits_respected(l).into());
+                s.insert("excess_ratio".into(), (st.pwr_out.value / st.pwr_out_max.value).into());
+                s
+            });
         c09(ctx, "published.loco_max<=edrv_rating", st.pwr_out_max.value <= ed_rating * (1.0 + 1e-12), format!("published {:e} rating {:e}", st.pwr_out_max.value, ed_rating), Sig::new());
         c09(ctx, "published.loco_max>=-aux", st.pwr_out_max.value >= -st.pwr_aux.value * (1.0 + 1e-9) - 1e-6, format!("published {:e} aux {:e}", st.pwr_out_max.value, st.pwr_aux.value), Sig::new());
         c09(ctx, "published.regen_max in [0,rating]", st.pwr_regen_max.value >= -1e-6 && st.pwr_regen_max.value <= ed_rating * (1.0 + 1e-12), format!("regen max {:e}", st.pwr_regen_max.value), Sig::new());
@@ -1012,6 +1036,27 @@ fn check_consist_tick(ctx: &mut Ctx, c: &Consist, cr: &mut ConRef, refs: &[UnitR
     }
 }
 
+/// The split evaluated (real code, public `SolvePower` API) on the state of a step that a unit refused.
+fn check_refused_split(ctx: &mut Ctx, c: &Consist, p_req: f64) {
+    use altrios_core::consist::SolvePower;
+    let mut pd = c.pdct.clone();
+    let v = if p_req > 0.0 { pd.solve_positive_traction(&c.loco_vec, &c.state) } else { pd.solve_negative_traction(&c.loco_vec, &c.state) };
+    let Ok(v) = v else { return };
+    ctx.hit("probe.consist.refused_step_split_examined");
+    let scale: f64 = c.loco_vec.iter().map(|l| edrv_of(l).pwr_out_max.value).sum::<f64>().max(1.0);
+    let eps = 1e-9 * scale + 1e-6;
+    for (u, (l, p)) in c.loco_vec.iter().zip(&v).enumerate() {
+        let p = p.value;
+        let rating = edrv_of(l).pwr_out_max.value;
+        if -p > rating * (1.0 + 1e-9) + eps {
+            ctx.violate("C10", "split", "unit braking<=edrv rating", format!("refused step: unit {u} asked for {:e} W of braking, drivetrain rating {rating:e} W (consist request {p_req:e} W inside its published capability)", -p));
+        }
+        if p > l.state.pwr_out_max.value * (1.0 + 1e-9) + eps {
+            ctx.violate("C10", "split", "unit<=published_max", format!("refused step: unit {u} asked for {p:e} W, published limit {:e} W (consist request {p_req:e} W)", l.state.pwr_out_max.value));
+        }
+    }
+}
+
 /// C19: counters and histories aligned through the whole tree
 fn check_alignment(ctx: &mut Ctx, sys: &Sys, a: &AlignRef, after: &str) {
     let mut items: Vec<(String, usize, usize, Option<usize>, Vec<usize>)> = vec![]; // name, i, hist len, interval, i column
@@ -1166,7 +1211,8 @@ fn run_ops(case: &Case, ctx: &mut Ctx, with_faults: bool, monitors: bool) -> Res
                         Ok(()) => {
                             if must_reject {
                                 let mut sg = sig1("negative", p < 0.0);
-                                sg.insert("as_consist".into(), case.as_consist.into());
+                                sg.insert("standalone".into(), (!case.as_consist).into());
+                                sg.insert("component_limits_respected".into(), sys.locos().iter().all(component_limits_respected).into());
                                 ctx.violate_sig("C09", "limits", "over-limit request is rejected", format!("demand {p:e} W accepted; published limit {pmax:e} W, braking capability {db_cap:e} W"), sg);
                             }
                             sys.save_state();
@@ -1197,6 +1243,15 @@ fn run_ops(case: &Case, ctx: &mut Ctx, with_faults: bool, monitors: bool) -> Res
                                 ctx.hit("stat.tick.rejected_other");
                                 if std::env::var("ALTSIM_NOTES").is_ok() {
                                     ctx.hit_dyn(format!("note.reject[{:?}]: {}", demand, first_line(&e)));
+                                }
+                            }
+                            // C10 on refused steps: a request inside the consist's published capability that a unit
+                            // refuses must not have been caused by the split asking that unit for more than it can do
+                            if monitors && try_k == 0 {
+                                if let Sys::Con(c) = &sys {
+                                    if c.state.pwr_out_req.value == p && p <= pmax && -p <= db_cap && p != 0.0 {
+                                        check_refused_split(ctx, c, p);
+                                    }
                                 }
                             }
                             let msg = format!("{e:#}");
